@@ -212,6 +212,26 @@ func c01Scenarios(tier string) []*world.Scenario {
 		}
 		out = append(out, SlowMultiFlush("C01", sz, b))
 	}
+	// cold backend connections that start with a handshake (password: AUTH; replicas: READONLY; both) whose replies arrive
+	// in pieces (cut after the first +OK, inside a +OK, not at all) while requests are already pending on them
+	for _, p := range [][]string{{"FA"}, {"FA", "FB"}, {"FA", "PING", "FA"}, {"M2", "FA"}} {
+		for _, cfg := range []struct {
+			pw  string
+			rep bool
+		}{{"secret", true}, {"secret", false}, {"", true}} {
+			for _, cuts := range [][]int{{}, {5}, {2}, {5, 7}} {
+				sc := c01Scenario([][]string{p}, true, 2)
+				if cfg.rep {
+					sc.Nodes = T3()
+				}
+				sc.Password = cfg.pw
+				sc.HandshakeCuts = cuts
+				sc.Name += fmt.Sprintf("/handshake-pw=%v-replicas=%v-cuts%v", cfg.pw != "", cfg.rep, cuts)
+				sc.Family = "handshake-in-pieces"
+				out = append(out, sc)
+			}
+		}
+	}
 	// more replies / fragments than one vectored write takes (1024 slices)
 	out = append(out, BigBatch("C01", 1100, false, 1), BigBatch("C01", 1100, true, 1), BigBatch("C01", 2100, false, 0))
 	// multi-key requests that can only be routed in part (one key in an unowned range) are answered locally
